@@ -1183,6 +1183,13 @@ theorem tree_inv (W : World) (hW : Acyclic W) (g : Nat) (ops : List Op) :
   obtain ⟨rk, hrk⟩ := hW
   exact (run_inv hrk (init_inv W g) ops).forest
 
+/-- `tree_inv` from any state that satisfies the invariant (used for the trees `InitQCTree` builds
+from a ledger, Props/C15Init.lean) -/
+theorem tree_inv_from (W : World) (hW : Acyclic W) {s : St} (h : Inv W s) (ops : List Op) :
+    Forest W (run W s ops) := by
+  obtain ⟨rk, hrk⟩ := hW
+  exact (run_inv hrk h ops).forest
+
 theorem Stored.congr {s s' : St} (h1 : s'.sons = s.sons) (h2 : s'.root = s.root) (h3 : s'.orphans = s.orphans)
     {x : Nat} (h : Stored s x) : Stored s' x := by
   unfold Stored InMain InOrph at *
@@ -1207,14 +1214,11 @@ theorem place_stored_node {W : World} {s : St} {node p : Nat} {kids rest : List 
 state is accepted and afterwards stored (by `tree_inv`: exactly once) — in the tree or in the orphan
 forest — unless it had already gone through the orphan list before (`OrphanMap`) and has since been
 dropped by orphan expiry or commit pruning. -/
-theorem stored_once (W : World) (hW : Acyclic W) (g : Nat) (ops : List Op) (id p : Nat)
+theorem stored_once_inv (W : World) (hW : Acyclic W) {s : St} (h : Inv W s) (id p : Nat)
     (hp : (W id).parent = some p) :
-    (updateQcStatus W (run W (init g) ops) id).2 = true ∧
-    (Stored (updateQcStatus W (run W (init g) ops) id).1 id ∨
-      (id ∈ (run W (init g) ops).omap ∧ ¬ Stored (run W (init g) ops) id)) := by
+    (updateQcStatus W s id).2 = true ∧
+    (Stored (updateQcStatus W s id).1 id ∨ (id ∈ s.omap ∧ ¬ Stored s id)) := by
   obtain ⟨rk, hrk⟩ := hW
-  have h := run_inv hrk (init_inv W g) ops
-  generalize run W (init g) ops = s at h
   unfold updateQcStatus
   by_cases hin : inMain s id = true
   · simp only [hin, if_true]
@@ -1249,16 +1253,21 @@ theorem stored_once (W : World) (hW : Acyclic W) (g : Nat) (ops : List Op) (id p
         exact h1.congr e1 e2 e3
       · exact Or.inr h1
 
+theorem stored_once (W : World) (hW : Acyclic W) (g : Nat) (ops : List Op) (id p : Nat)
+    (hp : (W id).parent = some p) :
+    (updateQcStatus W (run W (init g) ops) id).2 = true ∧
+    (Stored (updateQcStatus W (run W (init g) ops) id).1 id ∨
+      (id ∈ (run W (init g) ops).omap ∧ ¬ Stored (run W (init g) ops) id)) := by
+  have hW' := hW
+  obtain ⟨rk, hrk⟩ := hW'
+  exact stored_once_inv W hW (run_inv hrk (init_inv W g) ops) id p hp
+
 /-- **adopted_on_parent_arrival.** In every reachable state — in particular right after the arrival
 of `p` — every stored proposal `c` (other than Root) whose parent `p` is stored hangs directly under
 `p` and is not an orphan root: no orphan waits beside its parent. -/
-theorem adopted_on_parent_arrival (W : World) (hW : Acyclic W) (g : Nat) (ops : List Op) (c p : Nat)
-    (hc : Stored (run W (init g) ops) c) (hroot : c ≠ (run W (init g) ops).root)
-    (hpar : (W c).parent = some p) (hp : Stored (run W (init g) ops) p) :
-    c ∈ (run W (init g) ops).sons p ∧ c ∉ (run W (init g) ops).orphans := by
-  obtain ⟨rk, hrk⟩ := hW
-  have h := run_inv hrk (init_inv W g) ops
-  generalize run W (init g) ops = s at h hc hroot hp
+theorem adopted_inv {W : World} {s : St} (h : Inv W s) (c p : Nat)
+    (hc : Stored s c) (hroot : c ≠ s.root) (hpar : (W c).parent = some p) (hp : Stored s p) :
+    c ∈ s.sons p ∧ c ∉ s.orphans := by
   have fromEdge : ∀ b, Stored s b → c ∈ s.sons b → c ∈ s.sons p ∧ c ∉ s.orphans := by
     intro b hb hcb
     have e := h.edge _ _ hcb
@@ -1272,6 +1281,13 @@ theorem adopted_on_parent_arrival (W : World) (hW : Acyclic W) (g : Nat) (ops : 
   · rcases hd.cases_tail with e | ⟨b, hb, hcb⟩
     · subst e; exact (h.orphParent c hr p hpar hp).elim
     · exact fromEdge b (Or.inr ⟨r, hr, hb⟩) hcb
+
+theorem adopted_on_parent_arrival (W : World) (hW : Acyclic W) (g : Nat) (ops : List Op) (c p : Nat)
+    (hc : Stored (run W (init g) ops) c) (hroot : c ≠ (run W (init g) ops).root)
+    (hpar : (W c).parent = some p) (hp : Stored (run W (init g) ops) p) :
+    c ∈ (run W (init g) ops).sons p ∧ c ∉ (run W (init g) ops).orphans := by
+  obtain ⟨rk, hrk⟩ := hW
+  exact adopted_inv (run_inv hrk (init_inv W g) ops) c p hc hroot hpar hp
 
 /-- an operation other than the explicit rollback -/
 def notEnforce : Op → Prop
@@ -1334,6 +1350,12 @@ theorem markers_are_ancestors (W : World) (g : Nat) (ops : List Op) : MarkersOK 
     | cons o ops ih => intro s h; exact ih _ (stepOp_markers h o)
   exact this _ (init_markers W g)
 
+/-- `markers_are_ancestors` from any state whose markers are in order -/
+theorem markers_run {W : World} {s : St} (h : MarkersOK W s) (ops : List Op) : MarkersOK W (run W s ops) := by
+  induction ops generalizing s with
+  | nil => exact h
+  | cons o ops ih => exact ih (stepOp_markers h o)
+
 /-- **root_moves_down** (one step, any state): the new Root is a node of the old tree (a descendant of
 the old Root); only `commit` / `prop` move it. -/
 theorem root_moves_down (W : World) (s : St) (o : Op) : Desc s.sons s.root (stepOp W s o).1.root := by
@@ -1379,16 +1401,20 @@ theorem Desc.ancW {W : World} {sons : Nat → List Nat} (he : EdgeOK W sons) {a 
 
 /-- **root_moves_down** over histories: from a reachable state on, whatever happens, the Root stays
 on the descendant side of the earlier Root (the earlier Root is its ancestor-or-self by `ParentId`). -/
-theorem root_only_descends (W : World) (hW : Acyclic W) (g : Nat) (ops more : List Op) :
-    AncW W (run W (init g) ops).root (run W (run W (init g) ops) more).root := by
+theorem root_only_descends_inv (W : World) (hW : Acyclic W) {s : St} (h : Inv W s) (more : List Op) :
+    AncW W s.root (run W s more).root := by
   obtain ⟨rk, hrk⟩ := hW
-  have h := run_inv hrk (init_inv W g) ops
-  generalize run W (init g) ops = s at h
   induction more generalizing s with
   | nil => exact AncW.refl
   | cons o more ih =>
     have h1 : AncW W s.root (stepOp W s o).1.root := (root_moves_down W s o).ancW h.edge
-    exact h1.trans (ih _ (stepOp_inv hrk h o))
+    exact h1.trans (ih (stepOp_inv hrk h o))
+
+theorem root_only_descends (W : World) (hW : Acyclic W) (g : Nat) (ops more : List Op) :
+    AncW W (run W (init g) ops).root (run W (run W (init g) ops) more).root := by
+  have hW' := hW
+  obtain ⟨rk, hrk⟩ := hW'
+  exact root_only_descends_inv W hW (run_inv hrk (init_inv W g) ops) more
 
 /-- **pacemaker_monotone** (one step, any state): the pacemaker view never decreases, and after it is
 advanced by a certificate of view `v` it is at least `v + 1`. -/
